@@ -221,10 +221,16 @@ impl RoutingThread {
                     .await;
             }
             Message::KeyListUpdate(key_list) => {
-                self.network
+                if let Err(e) = self
+                    .network
                     .handle_received_key_list(peer_index, key_list)
                     .await
-                    .unwrap();
+                {
+                    warn!(
+                        "key list from peer : {:?} was not accepted : {:?}",
+                        peer_index, e
+                    );
+                }
             }
             Message::Block(_) => {
                 // blocks are fetched over http, never pushed. a peer sending one is ignored
